@@ -170,7 +170,10 @@ CLAIMS = {
               "scan_meets_spec_partial: full agreement with the specification on files without calls inside macro arguments; those are the "
               "recorded finding F17c (F17c_witness). Four genuine defects repaired (config sections ignored, substring test detection, "
               "comments hiding attributes, method-style wrappers). The model is tied to /repo by running the real CLI of all three linters "
-              "on generated Rust projects with options in .thailint.yaml; tree-sitter's Rust grammar is trusted, hence partial."),
+              "on generated Rust projects with options in .thailint.yaml."),
+        note=("tree-sitter's Rust grammar is trusted and only sampled by the correspondence check; attribute texts are restricted to an "
+              "alphabet proved plain; `never used afterwards` is read as: not in a later statement of the same block; calls inside macro "
+              "arguments are not reported by the implementation (known finding F17c), so the full statement holds only on macro-free files."),
         technique="Lean 4 proof (mutual structural recursion over syntax trees, case analysis over options) + T1 tables + differential check",
         ref="DESIGN.md §3 C17"),
     "C18": dict(
